@@ -436,20 +436,22 @@ func dslTemplates() []*tmpl {
 		&tmpl{name: `put -s v=1 $o = $x + @v`, verb: "put", group: "dsl", args: []string{"put", "-s", "v=1", `$o = $x + @v`}},
 		&tmpl{name: `put -x false`, verb: "put", group: "dsl", args: []string{"put", "-x", `$o = $x . ""; false`}},
 		&tmpl{name: `put -e -e`, verb: "put", group: "dsl", args: []string{"put", "-e", `$o = $x + 1;`, "-e", `$p = $x . ""`}},
-		putq(`emit $*`).Group("dsl-emit").Core(),
+		putq(`emit mapexcept($*, "nosuch")`).Group("dsl-emit").Core(),
 		putq(`emit mapexcept($*, "{y}")`).Group("dsl-emit"),
 		putq(`emit mapsum($*, {"new": 1})`).Group("dsl-emit"),
 		putq(`@r = $*; emit @r`).Group("dsl-emit"),
 		putq(`@r[$id] = $*; end { emit @r, "{id}" }`).Group("dsl-emit").M("id"),
 		putq(`@r[NR] = $*; end { emit @r, "NR" }`).Group("dsl-emit"),
-		putq(`emit1 {"{id}": $id, "{x}": $x}`).Group("dsl-emit").M("*"),
+		putq(`emit1 {"{x}": $x, "{id}": $id}`).Group("dsl-emit").M("*"),
 		putq(`emit (@a, @b), "{id}"`).Group("dsl-emit"),
 		putq(`@a[$id] = {"{x}": $x}; @b[$id] = {"{w}": $w}; end { emit (@a, @b), "{id}" }`).Group("dsl-emit").M("*"),
 		putq(`emitp mapexcept($*, "nosuch")`).Group("dsl-emit"),
 		putq(`emitf @c`).Group("dsl-emit"),
 		putq(`@x = $x; @idv = $id; emitf @idv, @x`).Group("dsl-emit").R("id", "idv").M("*"),
-		putq(`tee > "/dev/null", $*; emit $*`).Group("dsl-emit"),
-		putq(`if ($x == $x || true) { emit $* }`).Group("dsl-emit"),
+		putq(`tee > "/dev/null", $*; emit mapsum($*)`).Group("dsl-emit"),
+		putq(`if ($x == $x || true) { emit mapsum($*, {}) }`).Group("dsl-emit"),
+		putq(`map m = $*; emit m`).Group("dsl-emit"),
+		putq(`emit1 {"{id}": $id, "{x}": $x, "n": NR}`).Group("dsl-emit").M("*"),
 		putq(`@recs[NR] = $*; end { for (k, r in @recs) { emit r } }`).Group("dsl-emit"),
 		putq(`@recs[NR] = $*; end { emit @recs, "NR" }`).Group("dsl-emit"),
 		filter(`$x == $x || true`).Core(),
@@ -576,7 +578,7 @@ func chainTemplates(base []*tmpl) []*tmpl {
 	var T []*tmpl
 	for _, a := range core {
 		for _, b := range core {
-			c := &tmpl{name: a.name + " then " + b.name, verb: "(chain)", group: "chain", light: true}
+			c := &tmpl{name: a.name + " then " + b.name, verb: "chain", group: "chain", light: true}
 			c.args = append(append(append([]string{}, a.args...), "then"), b.args...)
 			c.assigns = append(append([]string{}, a.assigns...), b.assigns...)
 			c.assignsEmpty = append(append([]string{}, a.assignsEmpty...), b.assignsEmpty...)
@@ -598,7 +600,7 @@ func chainTemplates(base []*tmpl) []*tmpl {
 		{"cat", "-n", "then", "put", `for (k, v in $*) { $[k . "_t"] = typeof(v) }`, "then", "unsparsify", "then", "regularize", "then", "sort", "-f", "{x}", "-nr", "{w}"},
 	}
 	for _, l := range long {
-		t := &tmpl{name: strings.Join(l, " "), verb: "(chain)", group: "chain", args: l}
+		t := &tmpl{name: strings.Join(l, " "), verb: "chain", group: "chain", args: l}
 		if strings.Contains(t.name, "sec2gmt") {
 			t.A("y")
 		}
@@ -623,7 +625,15 @@ func buildCatalogue() *catalogue {
 	c.fnSkipped = skipped
 	c.templates = append(c.templates, base...)
 	c.templates = append(c.templates, chainTemplates(base)...)
-	c.templates = append(c.templates, fn...)
+	have := map[string]bool{}
+	for _, t := range c.templates {
+		have[t.name] = true
+	}
+	for _, t := range fn {
+		if !have[t.name] { // the same form may already be hand-written
+			c.templates = append(c.templates, t)
+		}
+	}
 	byVerb := map[string][]*tmpl{}
 	for _, t := range c.templates {
 		byVerb[t.verb] = append(byVerb[t.verb], t)
